@@ -3,7 +3,7 @@
     failure on the real code is therefore a behaviour the model cannot show. *)
 From Coq Require Import ZArith PArith List Bool Ascii String.
 From PV Require Import Marker.SendRestr Marker.SendRestrSpec Marker.SendCompose
-  Proofs.SendRestrProofs Proofs.SendComposeProofs Corr.CorrBase Corr.C04.
+  Proofs.SendRestrProofs Proofs.SendComposeProofs Proofs.ReqAttrProofs Corr.CorrBase Corr.C04.
 Import ListNotations.
 
 Lemma bypassed_false_not_bypassed c from : bypassed c from = false -> not_bypassed c from.
@@ -139,3 +139,13 @@ Proof.
     intros Hft. apply quarantine_clause_on_model; assumption.
   - apply denied_clauses_on_model. exact Hv.
 Qed.
+
+(** The required-attribute clause evaluated by [CReqAttr] holds on the model: where the attributes
+    decide, the model's verdict is the per-requirement rule on the configuration's own name lists. *)
+Lemma required_attributes_clause_on_model c from to d a m :
+  (0 < a)%Z -> attribute_decided c from to d = true -> marker_for_denom c d = Some m ->
+  Bool.eqb (allowed c from to [(d, a)]) (each_requirement_matched (m_req_attrs m) (attributes_of c to)) = true.
+Proof.
+  intros Ha Hd Hm. rewrite (attribute_decided_verdict c from to d a m Ha Hd Hm). apply Bool.eqb_reflx.
+Qed.
+
